@@ -147,20 +147,14 @@ func baseTransportEffects(c *core.Ctx, R string) {
 	if u := c.Fn(R, "transports.(*transport).OnError"); u != nil {
 		heard := func(x *core.Unit, br core.Branch) int {
 			cmp, ok := x.BranchCmp(br)
-			if !ok || cmp.Val == nil || cmp.Val.ExactString() != "0" {
+			if !ok || cmp.Val == nil {
 				return 0
 			}
 			ce, key := x.AsCall(cmp.X)
 			if ce == nil || !strings.HasSuffix(key, ".ListenerCount") {
 				return 0
 			}
-			switch cmp.Op {
-			case token.GTR, token.NEQ:
-				return 1
-			case token.EQL:
-				return -1
-			}
-			return 0
+			return positiveEdge(cmp)
 		}
 		requireEffects(c, R, u, []effect{{name: "listened→Emit(error)", match: mNameStr("Emit", 0, "error"), on: []core.Guard{heard}}})
 	}
@@ -172,7 +166,7 @@ func containerEffects(c *core.Ctx, R string) {
 	nonEmpty := func(field string) core.Guard {
 		return func(x *core.Unit, br core.Branch) int {
 			cmp, ok := x.BranchCmp(br)
-			if !ok || cmp.Val == nil || cmp.Val.ExactString() != "0" {
+			if !ok || cmp.Val == nil {
 				return 0
 			}
 			ce, _ := ast.Unparen(cmp.X).(*ast.CallExpr)
@@ -182,13 +176,7 @@ func containerEffects(c *core.Ctx, R string) {
 			if fieldOf(x.Info(), ce.Args[0]) != field && !isLocalAnyDepth(x, ce.Args[0], field) {
 				return 0
 			}
-			switch cmp.Op {
-			case token.GTR, token.NEQ:
-				return 1
-			case token.EQL, token.LEQ:
-				return -1
-			}
-			return 0
+			return positiveEdge(cmp)
 		}
 	}
 	for _, k := range []string{"types.(*Slice).Pop", "types.(*Slice).Shift"} {
